@@ -17,26 +17,41 @@ package lexer
 //@ specfunc startZero(f stateFn) bool
 //@ specfunc afterSep(f stateFn) bool
 //@ specfunc startOK(f stateFn) bool
+//@ specfunc named(f stateFn) bool
+//@ specfunc typed(f stateFn) bool
+//@ specfunc blank(f stateFn) bool
 //@ specfunc isBound(f stateFn) bool
 //@ specfunc boundLexer(f stateFn) *Lexer
 
+// RateOK: the sampling rate is finite and strictly positive (1 until an @rate attribute is accepted)
+//@ pred RateOK(l *Lexer) := isFinite(l.sampling) && l.sampling > 0.0
+
 //@ pred LexInv(l *Lexer) := l != nil && l.len == len(l.input) && l.pos <= l.len && len(l.input) < 4294967296 && l.MetricPool != nil
 
-//@ pred StateReq(f stateFn, l *Lexer) := (needM(f) ==> l.m != nil) && (needE(f) ==> l.e != nil) && (startZero(f) ==> l.start == 0) && (afterSep(f) ==> l.start < l.pos) && (startOK(f) ==> l.start <= l.pos) && (isBound(f) ==> boundLexer(f) == l)
+//@ pred StateReq(f stateFn, l *Lexer) := (needM(f) ==> l.m != nil) && (needE(f) ==> l.e != nil) && (startZero(f) ==> l.start == 0) && (afterSep(f) ==> l.start < l.pos) && (startOK(f) ==> l.start <= l.pos) && (isBound(f) ==> boundLexer(f) == l) && (named(f) ==> len(l.m.Name) > 0) && (typed(f) ==> 1 <= l.m.Type && l.m.Type <= 4) && (blank(f) ==> l.m == nil)
 
-//@ pred Inherit(f stateFn, g stateFn) := needM(f) == needM(g) && needE(f) == needE(g) && startZero(f) == startZero(g) && afterSep(f) == afterSep(g) && startOK(f) == startOK(g) && isBound(f) == isBound(g) && boundLexer(f) == boundLexer(g)
+//@ pred Inherit(f stateFn, g stateFn) := needM(f) == needM(g) && needE(f) == needE(g) && startZero(f) == startZero(g) && afterSep(f) == afterSep(g) && startOK(f) == startOK(g) && isBound(f) == isBound(g) && boundLexer(f) == boundLexer(g) && named(f) == named(g) && typed(f) == typed(g) && blank(f) == blank(g)
 
 // L(f, needM, needE, startZero, afterSep, startOK): the complete label set of an unbound state function
 //@ pred L(f stateFn, nm bool, ne bool, sz bool, as bool, so bool) := needM(f) == nm && needE(f) == ne && startZero(f) == sz && afterSep(f) == as && startOK(f) == so
+// L2(f, named, typed): the metric being built already has its (non-empty) name / its type
+// (blank: no metric has been taken from the pool: the event path)
+//@ pred L2(f stateFn, nd bool, td bool) := named(f) == nd && typed(f) == td && blank(f) == needE(f)
 
 // Owned: what the lexer writes to is what it already wrote to, or memory allocated since (the
 // metric/event being built, its tag buffer); the input line stays where it is.
 //@ pred Owned(l *Lexer, m0 *gostatsd.Metric, e0 *gostatsd.Event, tags0 int, in0 int) := (l.m == m0 || fresh(l.m)) && (l.e == e0 || fresh(l.e)) && (base(l.tags) == tags0 || base(l.tags) == 0 || fresh(base(l.tags))) && base(l.input) == in0
 
-//@ pred Done(l *Lexer) := l.err == nil ==> l.m != nil || l.e != nil
+// goodTag / TagsOK: every tag collected so far is non-empty and contains neither ',' nor '|' (C02)
+//@ pred goodTag(s string) := len(s) > 0 && (forall j int :: 0 <= j && j < len(s) ==> s[j] != ',' && s[j] != '|')
+//@ pred TagsOK(tags gostatsd.Tags) := forall i int :: 0 <= i && i < len(tags) ==> goodTag(tags[i])
+
+//@ pred Done(l *Lexer) := l.err == nil ==> (l.m != nil || l.e != nil) && (l.m != nil ==> len(l.m.Name) > 0 && 1 <= l.m.Type && l.m.Type <= 4)
 
 //@ functype stateFn(l)
-//@   requires LexInv(l) && StateReq(self, l)
+//@   floats ieee
+//@   requires LexInv(l) && StateReq(self, l) && TagsOK(l.tags) && RateOK(l)
+//@   ensures  TagsOK(l.tags) && RateOK(l)
 //@   ensures  LexInv(l)
 //@   ensures  result != nil ==> StateReq(result, l)
 //@   ensures  result == nil ==> Done(l)
@@ -45,7 +60,9 @@ package lexer
 //@   modifies l.*, l.input[*], l.m.*, l.e.*, l.tags[*]
 
 //@ functype uintHandler(l, value) sig func(*Lexer, uint64) stateFn
-//@   requires LexInv(l) && StateReq(self, l)
+//@   floats ieee
+//@   requires LexInv(l) && StateReq(self, l) && TagsOK(l.tags) && RateOK(l)
+//@   ensures  TagsOK(l.tags) && RateOK(l)
 //@   ensures  LexInv(l)
 //@   ensures  result != nil ==> StateReq(result, l)
 //@   ensures  result == nil ==> Done(l)
@@ -65,69 +82,94 @@ package lexer
 // produced from earlier lines, and every other part of the datagram buffer, is left alone (C05).
 // What it returns is newly allocated (or comes unshared from the pool).
 //@ func (*Lexer).Run
+//@   floats ieee
 //@   requires l != nil && l.MetricPool != nil && len(input) < 4294967296
 //@   ensures  l.MetricPool == old(l.MetricPool)
 //@   ensures  result2 == nil ==> result0 != nil || result1 != nil
+//@   ensures  [W] result2 == nil && result0 != nil ==> len(result0.Name) > 0
+//@   ensures  [W] result2 == nil && result0 != nil && result0.Type != gostatsd.SET ==> !isNaN(result0.Value)
+//@   ensures  [W] result2 == nil && result0 != nil ==> isFinite(result0.Rate) && result0.Rate > 0.0
+//@   ensures  [W] result2 == nil && result0 != nil ==> TagsOK(result0.Tags) && 1 <= result0.Type && result0.Type <= 4
+//@   ensures  [W] result2 == nil && result0 == nil ==> TagsOK(result1.Tags)
 //@   ensures  [fresh] result0 == nil || fresh(result0)
 //@   ensures  [fresh] result1 == nil || fresh(result1)
 //@   ensures  [fresh] result0 != nil && result2 == nil ==> base(result0.Tags) == 0 || fresh(base(result0.Tags))
 //@   ensures  [fresh] result1 != nil && result0 == nil && result2 == nil ==> base(result1.Tags) == 0 || fresh(base(result1.Tags))
 //@   loop 1 invariant LexInv(l) && (state != nil ==> StateReq(state, l)) && (state == nil ==> Done(l)) && l.MetricPool == old(l.MetricPool)
+//@   loop 1 invariant TagsOK(l.tags) && RateOK(l)
 //@   loop 1 invariant (l.m == nil || fresh(l.m)) && (l.e == nil || fresh(l.e)) && (base(l.tags) == 0 || fresh(base(l.tags))) && base(l.input) == base(input)
 //@   modifies l.*, input[*]
 
 //@ func lexSpecial
+//@   label named(self) == false && typed(self) == false && blank(self)
 //@   label L(self, false, false, true, false, false) && !isBound(self)
 
 //@ func lexKeySep
+//@   label L2(self, false, false)
 //@   label L(self, true, false, true, false, false) && !isBound(self)
 //@   loop 1 invariant LexInv(l) && base(l.input) == old(base(l.input))
 
 //@ func lexKey
+//@   label L2(self, false, false)
 //@   label L(self, true, false, true, true, false) && !isBound(self)
 
 //@ func lexValueSep
+//@   label L2(self, true, false)
 //@   label L(self, true, false, false, false, true) && !isBound(self)
 //@   loop 1 invariant LexInv(l) && l.start <= l.pos
 
 //@ func lexValue
+//@   label L2(self, true, false)
 //@   label L(self, true, false, false, true, false) && !isBound(self)
 
 //@ func lexType
+//@   label L2(self, true, false)
 //@   label L(self, true, false, false, false, false) && !isBound(self)
 
 //@ func lexMetricAttributes
+//@   label L2(self, true, true)
 //@   label L(self, true, false, false, false, false) && !isBound(self)
 
 //@ func lexMetricAttribute
+//@   label L2(self, true, true)
 //@   label L(self, true, false, false, false, false) && !isBound(self)
-//@   loop 1 invariant LexInv(l) && (base(l.tags) == old(base(l.tags)) || fresh(base(l.tags)))
+//@   loop 1 invariant LexInv(l) && (base(l.tags) == old(base(l.tags)) || fresh(base(l.tags))) && TagsOK(l.tags)
 
 //@ func lexDatadogSpecial
+//@   label named(self) == false && typed(self) == false && blank(self)
 //@   label L(self, false, false, false, false, false) && !isBound(self)
 
 //@ func lexEventBody
+//@   label L2(self, false, false)
 //@   label L(self, false, true, false, false, false) && !isBound(self)
 
 //@ func lexEventAttributes
+//@   label L2(self, false, false)
 //@   label L(self, false, true, false, false, false) && !isBound(self)
 
 //@ func lexEventAttribute
+//@   label L2(self, false, false)
 //@   label L(self, false, true, false, false, false) && !isBound(self)
-//@   loop 1 invariant LexInv(l) && (base(l.tags) == old(base(l.tags)) || fresh(base(l.tags)))
+//@   loop 1 invariant LexInv(l) && (base(l.tags) == old(base(l.tags)) || fresh(base(l.tags))) && TagsOK(l.tags)
 
 //@ func lexEventAttribute$1
+//@   label L2(self, false, false)
 //@   label L(self, false, true, false, false, false) && !isBound(self)
 
 //@ func lexEventAttribute$2
+//@   label L2(self, false, false)
 //@   label L(self, false, true, false, false, false) && isBound(self) && boundLexer(self) == l
 //@ func lexEventAttribute$3
+//@   label L2(self, false, false)
 //@   label L(self, false, true, false, false, false) && isBound(self) && boundLexer(self) == l
 //@ func lexEventAttribute$4
+//@   label L2(self, false, false)
 //@   label L(self, false, true, false, false, false) && isBound(self) && boundLexer(self) == l
 //@ func lexEventAttribute$5
+//@   label L2(self, false, false)
 //@   label L(self, false, true, false, false, false) && isBound(self) && boundLexer(self) == l
 //@ func lexEventAttribute$6
+//@   label L2(self, false, false)
 //@   label L(self, false, true, false, false, false) && isBound(self) && boundLexer(self) == l
 
 //@ func lexAssert$1
@@ -141,7 +183,7 @@ package lexer
 
 // The closure writes through `target`; it is bound to the lexer that owns that field.
 //@ func lexUint32$1
-//@   label needM(self) == needM(next) && needE(self) == needE(next) && startZero(self) == startZero(next) && afterSep(self) == afterSep(next) && startOK(self) == startOK(next)
+//@   label needM(self) == needM(next) && needE(self) == needE(next) && startZero(self) == startZero(next) && afterSep(self) == afterSep(next) && startOK(self) == startOK(next) && named(self) == named(next) && typed(self) == typed(next) && blank(self) == blank(next)
 //@   label isBound(self) && boundLexer(self) == objOf(target)
 //@   captures fieldIs(target, Lexer.eventTitleLen) || fieldIs(target, Lexer.eventTextLen)
 //@   captures isBound(next) ==> boundLexer(next) == objOf(target)
@@ -150,6 +192,8 @@ package lexer
 //@ func seekDelimited
 //@   requires LexInv(l) && stop != 0 && delimiter != 0
 //@   ensures  LexInv(l)
+//@   ensures  [nodelim] forall k int :: off(result0) <= k && k < off(result0) + len(result0) ==> at(result0, k) != stop && at(result0, k) != delimiter
 //@   ensures  l.MetricPool == old(l.MetricPool)
 //@   modifies l.pos, l.start
 //@   loop 1 invariant LexInv(l) && l.start <= l.pos
+//@   loop 1 invariant forall k int :: off(l.input) + l.start <= k && k < off(l.input) + l.pos ==> at(l.input, k) != stop && at(l.input, k) != delimiter
